@@ -474,7 +474,10 @@ class IncompleteHashTree(CompleteBinaryTreeMixin, list):
                     this_level.discard(siblingnum)
             # we're done!
 
-        except (BadHashError, NotEnoughHashesError):
+        except (BadHashError, NotEnoughHashesError, IndexError):
+            # IndexError: a hash number outside of the tree. The hashes
+            # that were provisionally added before it was reached must be
+            # forgotten too, or they would later count as validated.
             for i in remove_upon_failure:
                 self[i] = None
             raise
